@@ -264,3 +264,35 @@ MUTANTS += [
     dict(prop="C18", name="missing-value-only-all-dots", file=SO,
          old="    mask = number_text.lengths > 0\n", new="    mask = number_text.lengths >= 0\n"),
 ]
+
+IV = "bionumpy/arithmetics/intervals.py"
+SIM = "bionumpy/arithmetics/similarity_measures.py"
+
+MUTANTS += [
+    # ---- C08 ----------------------------------------------------------------------------
+    dict(prop="C08", name="merge-touching-not-merged", file=IV,
+         old="    valid_start_mask = intervals.start[1:] > stops[:-1]  # intervals[:-1].stop", new="    valid_start_mask = intervals.start[1:] >= stops[:-1]"),
+    dict(prop="C08", name="merge-no-running-maximum", file=IV,
+         old="    stops = np.maximum.accumulate(intervals.stop)\n", new="    stops = intervals.stop.copy()\n"),
+    dict(prop="C08", name="merge-mutates-input (seeded C08-a)", file=IV,
+         old="    stops = np.maximum.accumulate(intervals.stop)\n", new="    stops = intervals.stop\n    if np.any(stops[1:] < stops[:-1]):\n        stops = np.maximum.accumulate(stops)\n"),
+    dict(prop="C08", name="merge-distance-not-subtracted-from-last", file=IV,
+         old="    if distance > 0:\n        new_interval.stop -= distance\n", new="    if distance > 0:\n        new_interval.stop[:-1] -= distance\n"),
+    dict(prop="C08", name="extend-min-max-swapped", file=IV,
+         old="                    np.minimum(intervals.start+fragment_length, chromosome_size),", new="                    np.maximum(intervals.start+fragment_length, chromosome_size),"),
+    dict(prop="C08", name="extend-minus-not-clamped", file=IV,
+         old="                     np.maximum(intervals.stop-fragment_length, 0))", new="                     intervals.stop-fragment_length)"),
+    dict(prop="C08", name="sort-key-without-stop", file=IV,
+         old="    s = sorted((chromosome_key_function(interval.chromosome.to_string()), interval.start, interval.stop, i)",
+         new="    s = sorted((chromosome_key_function(interval.chromosome.to_string()), interval.start, -i)"),
+    dict(prop="C08", name="unique-intersect-needs-full-cover", file=IV,
+         old="    entry_mask = genome_mask[intervals_a].any(axis=-1)", new="    entry_mask = genome_mask[intervals_a].all(axis=-1)"),
+    dict(prop="C08", name="count-overlap-negative-gaps", file=IV,
+         old="    return np.sum(np.maximum(stops[:-1]-starts[1:], 0))", new="    return np.sum(np.abs(stops[:-1]-starts[1:]))"),
+    dict(prop="C08", name="jaccard-denominator", file=SIM,
+         old="    return float(a/(N-d))", new="    return float(a/(N-d+(d == 1)))"),
+    dict(prop="C08", name="clip-start-only", file=IV,
+         old="        stop=np.minimum(chrom_sizes, intervals.stop))", new="        stop=np.minimum(chrom_sizes + 1, intervals.stop))"),
+    dict(prop="C08", name="mask-sorted-by-stop", file=IV,
+         old="    merged = merge_intervals(intervals[np.argsort(intervals.start)])", new="    merged = merge_intervals(intervals[np.argsort(intervals.start, kind='stable')][::1] if len(intervals) < 3 else intervals[np.lexsort((intervals.start, intervals.stop))])"),
+]
